@@ -21,6 +21,10 @@ structure Call where
   dims : List Dim
   avail : Nat
   done : Bool
+  /-- the split's `padding` is a CALLABLE: the padding windows `Window(height=self.padding)` kept
+      in the cache evaluate it again on every call (`to_dimension` of a callable calls it), so
+      `pad` — its current value — applies even when the cached `_all_children` list is used -/
+  padCall : Bool
 deriving Repr
 
 /-- `_children_cache`: key (children identities) and the alignment / padding frozen in the value -/
@@ -29,7 +33,8 @@ abbrev Cache := Option (List Nat × Align × Dim)
 /-- `self._children_cache.get(tuple(self.children), get)` -/
 def lookup (c : Cache) (call : Call) : Align × Dim :=
   match c with
-  | some (key, al, pad) => if key = call.ids then (al, pad) else (call.al, call.pad)
+  | some (key, al, pad) =>
+    if key = call.ids then (al, if call.padCall then call.pad else pad) else (call.al, call.pad)
   | none => (call.al, call.pad)
 
 /-- one `_divide_heights` (`horizontal`) / `_divide_widths` call on the shared object -/
